@@ -44,8 +44,10 @@ fn name_wire(n: &KeyName) -> String {
     format!("{v}:{p}")
 }
 fn key_wire(k: &Key) -> String {
-    let bits: u32 = KEYMODS.iter().filter(|(f, _)| k.mode.contains(*f)).map(|(_, b)| b).sum();
-    format!("{}:{}", name_wire(&k.name), bits)
+    // the raw modifier word (derived `Hash`), cross-checked against what `contains` shows
+    let shown: u64 = KEYMODS.iter().filter(|(f, _)| k.mode.contains(*f)).map(|(_, b)| *b as u64).sum();
+    let raw = keymod_raw(k.mode);
+    if raw == shown { format!("{}:{}", name_wire(&k.name), raw) } else { format!("{}:{}!contains-shows-{}", name_wire(&k.name), raw, shown) }
 }
 fn chord_wire(c: &[Key]) -> String {
     if c.is_empty() { "-".to_string() } else { c.iter().map(key_wire).collect::<Vec<_>>().join(",") }
@@ -148,7 +150,7 @@ fn chord_case(ctx: &mut Ctx, s: &str) {
     if let Ok(Ok(c)) = &r {
         let printed = c.to_string();
         match guarded(|| KeyChord::from_str(&printed)) {
-            Ok(Ok(c2)) if c2 == *c => {}
+            Ok(Ok(c2)) if chord_wire(c2.keys()) == chord_wire(c.keys()) => {}
             other => ctx.out.fail(
                 "KeyChord: printed form does not parse back to the same chord",
                 input.clone(),
@@ -156,27 +158,16 @@ fn chord_case(ctx: &mut Ctx, s: &str) {
                 json!(format!("printed {printed:?} -> {:?}", other.map(|r| r.map(|c| chord_wire(c.keys())).map_err(|e| e.to_string())))),
             ),
         }
-        let js = guarded(|| serde_json::to_string(c).map_err(|e| e.to_string()));
-        match &js {
-            Ok(Ok(js)) => match guarded(|| serde_json::from_str::<KeyChord>(js).map_err(|e| e.to_string())) {
-                Ok(Ok(c2)) if c2 == *c => {}
-                other => ctx.out.fail(
+        for (route, r2) in serde_paths(c) {
+            if !matches!(&r2, Ok(c2) if chord_wire(c2.keys()) == chord_wire(c.keys())) {
+                ctx.out.fail(
                     "KeyChord does not survive serde_json",
-                    input.clone(),
+                    json!({"kind": "chord", "string": s, "route": route}),
                     json!(chord_wire(c.keys())),
-                    json!(format!("{js} -> {:?}", other.map(|r| r.map(|c| chord_wire(c.keys()))))),
-                ),
-            },
-            other => ctx.out.fail("KeyChord serialisation failed", input.clone(), json!("json"), json!(format!("{other:?}"))),
-        }
-        match guarded(|| serde_json::to_value(c).and_then(serde_json::from_value::<KeyChord>).map_err(|e| e.to_string())) {
-            Ok(Ok(c2)) if c2 == *c => {}
-            other => ctx.out.fail(
-                "KeyChord does not survive to_value/from_value",
-                input,
-                json!(chord_wire(c.keys())),
-                json!(format!("{:?}", other.map(|r| r.map(|c| chord_wire(c.keys()))))),
-            ),
+                    json!(format!("{:?}", r2.map(|c| chord_wire(c.keys())))),
+                );
+                break;
+            }
         }
     }
     ctx.out.case(&format!("chord {s}"), matches!(r, Ok(Ok(_))));
@@ -249,21 +240,6 @@ fn crop(img: &Image, r: &SelW, c: &SelW) -> Image {
         SelW::Incl(a, b) => cols!(*a..=*b),
     }
 }
-fn chain_tok(ch: &[(SelW, SelW)]) -> String {
-    if ch.is_empty() { "-".to_string() } else { ch.iter().map(|(r, c)| format!("V;{};{}", r.tok(), c.tok())).collect::<Vec<_>>().join("/") }
-}
-fn chain_parse(s: &str) -> Option<Vec<(SelW, SelW)>> {
-    if s == "-" {
-        return Some(vec![]);
-    }
-    s.split('/')
-        .map(|st| {
-            let p: Vec<&str> = st.split(';').collect();
-            if p.len() == 3 && p[0] == "V" { Some((SelW::parse(p[1])?, SelW::parse(p[2])?)) } else { None }
-        })
-        .collect()
-}
-
 fn image_from(h: usize, w: usize, rgba: &[u8]) -> Image {
     Image::from(SurfaceOwned::new_with(Size::new(h, w), |p| {
         let o = 4 * (p.row * w + p.col);
@@ -271,12 +247,15 @@ fn image_from(h: usize, w: usize, rgba: &[u8]) -> Image {
     }))
 }
 
-/// pixels of an image (or view) row by row through `get`, as rgba bytes
+/// pixels of an image (or view) row by row, read from the backing buffer with the strides of its shape —
+/// no accessor of the crate involved; `Surface::get` and `Surface::iter` are cross-checked against it
 fn pixels_of(img: &Image) -> Vec<u8> {
+    let sh = img.shape();
+    let data = img.data();
     let mut v = Vec::new();
-    for r in 0..img.height() {
-        for c in 0..img.width() {
-            match img.get(Position::new(r, c)) {
+    for r in 0..sh.height {
+        for c in 0..sh.width {
+            match data.get(sh.start + r * sh.row_stride + c * sh.col_stride) {
                 Some(p) => v.extend_from_slice(&p.to_rgba()),
                 None => v.extend_from_slice(&[0xde, 0xad, 0xbe, 0xef, 0x00]), // never equal to a pixel stream
             }
@@ -284,25 +263,127 @@ fn pixels_of(img: &Image) -> Vec<u8> {
     }
     v
 }
+/// the same pixels through `Surface::get` and through `Surface::iter`
+fn pixels_via_accessors(img: &Image) -> (Vec<u8>, Vec<u8>) {
+    let sh = img.shape();
+    let mut g = Vec::new();
+    for r in 0..sh.height {
+        for c in 0..sh.width {
+            match img.get(Position::new(r, c)) {
+                Some(p) => g.extend_from_slice(&p.to_rgba()),
+                None => g.push(0xee),
+            }
+        }
+    }
+    let it: Vec<u8> = img.iter().flat_map(|p| p.to_rgba()).collect();
+    (g, it)
+}
 
 fn image_res_wire(r: &Result<Result<Image, String>, ()>) -> String {
     match r {
         Err(()) => "panic".to_string(),
         Ok(Err(_)) => "err".to_string(),
-        Ok(Ok(img)) => format!("ok {} {} {}", img.height(), img.width(), hex(&pixels_of(img))),
+        Ok(Ok(img)) => format!("ok {} {} {}", img.shape().height, img.shape().width, hex(&pixels_of(img))),
     }
 }
 
-/// serialise a (cropped) image, deserialise, compare pixel for pixel; correspondence of both directions
-fn image_case(ctx: &mut Ctx, h: usize, w: usize, rgba: &[u8], chain: &[(SelW, SelW)]) {
-    let input = json!({"kind": "image", "h": h, "w": w, "rgba": hex(rgba), "chain": chain_tok(chain)});
-    let root = image_from(h, w, rgba);
-    let mut img = root.clone();
-    for (r, c) in chain {
-        img = crop(&img, r, c);
+/// a step of a chain: crop, or transposition (strides swapped: a view that is not row-contiguous)
+#[derive(Clone, Debug)]
+enum Step {
+    V(SelW, SelW),
+    T,
+}
+fn steps_tok(st: &[Step]) -> String {
+    if st.is_empty() {
+        "-".to_string()
+    } else {
+        st.iter().map(|s| match s { Step::V(r, c) => format!("V;{};{}", r.tok(), c.tok()), Step::T => "T".to_string() }).collect::<Vec<_>>().join("/")
     }
-    let want = pixels_of(&img);
-    let (vh, vw) = (img.height(), img.width());
+}
+fn steps_parse(s: &str) -> Option<Vec<Step>> {
+    if s == "-" {
+        return Some(vec![]);
+    }
+    s.split('/')
+        .map(|st| {
+            if st == "T" {
+                return Some(Step::T);
+            }
+            let p: Vec<&str> = st.split(';').collect();
+            if p.len() == 3 && p[0] == "V" { Some(Step::V(SelW::parse(p[1])?, SelW::parse(p[2])?)) } else { None }
+        })
+        .collect()
+}
+
+/// Python slice of an axis of length `n`: `None` = empty selection
+fn py_sel(sel: &SelW, n: usize) -> Option<(usize, usize)> {
+    let n = n as i128;
+    let idx = |i: i64| -> i128 { let i = i as i128; if i < 0 { (i + n).max(0) } else { i.min(n) } };
+    let end_incl = |e: i64| -> i128 { let e = e as i128; if e >= n { n } else if e < -n { 0 } else { (if e < 0 { e + n } else { e }) + 1 } };
+    let (a, b) = match sel {
+        SelW::Full => (0, n),
+        SelW::Range(a, b) => (idx(*a), idx(*b)),
+        SelW::From(a) => (idx(*a), n),
+        SelW::To(b) => (0, idx(*b)),
+        SelW::Incl(a, b) => (idx(*a), end_incl(*b)),
+    };
+    if a < b { Some((a as usize, b as usize)) } else { None }
+}
+
+/// the window a chain selects on the plain pixel matrix, computed here from the raw bytes (no crate code)
+fn window_of(h: usize, w: usize, rgba: &[u8], steps: &[Step]) -> Vec<Vec<[u8; 4]>> {
+    let mut m: Vec<Vec<[u8; 4]>> =
+        (0..h).map(|r| (0..w).map(|c| { let o = 4 * (r * w + c); [rgba[o], rgba[o + 1], rgba[o + 2], rgba[o + 3]] }).collect()).collect();
+    if w == 0 {
+        m.clear();
+    }
+    for st in steps {
+        let (mh, mw) = (m.len(), m.first().map(|r| r.len()).unwrap_or(0));
+        m = match st {
+            Step::V(rs, cs) => match (py_sel(rs, mh), py_sel(cs, mw)) {
+                (Some((r0, r1)), Some((c0, c1))) => m[r0..r1].iter().map(|row| row[c0..c1].to_vec()).collect(),
+                _ => Vec::new(),
+            },
+            Step::T => (0..mw).map(|c| (0..mh).map(|r| m[r][c]).collect()).collect(),
+        };
+    }
+    m
+}
+
+fn image_case(ctx: &mut Ctx, h: usize, w: usize, rgba: &[u8], chain: &[(SelW, SelW)]) {
+    let steps: Vec<Step> = chain.iter().map(|(r, c)| Step::V(r.clone(), c.clone())).collect();
+    image_case_steps(ctx, h, w, rgba, &steps);
+}
+
+/// serialise a (cropped / transposed) image, deserialise, compare pixel for pixel; correspondence of both directions
+fn image_case_steps(ctx: &mut Ctx, h: usize, w: usize, rgba: &[u8], steps: &[Step]) {
+    let input = json!({"kind": "image", "h": h, "w": w, "rgba": hex(rgba), "chain": steps_tok(steps)});
+    let mut img = image_from(h, w, rgba);
+    for st in steps {
+        img = match st {
+            Step::V(r, c) => crop(&img, r, c),
+            Step::T => {
+                let sh = img.shape();
+                Image::from_parts(
+                    std::sync::Arc::from(img.data().to_vec()),
+                    Shape { width: sh.height, height: sh.width, col_stride: sh.row_stride, row_stride: sh.col_stride, ..sh },
+                )
+            }
+        };
+    }
+    // expectation from the raw bytes; the image's own view of itself is cross-checked against it
+    let window = window_of(h, w, rgba, steps);
+    let want: Vec<u8> = window.iter().flatten().flatten().copied().collect();
+    let (vh, vw) = (img.shape().height, img.shape().width);
+    let (via_get, via_iter) = pixels_via_accessors(&img);
+    if pixels_of(&img) != want || via_get != want || via_iter != want || vh * vw * 4 != want.len() {
+        ctx.out.fail(
+            "a cropped / transposed image does not show the window of the pixel matrix (raw buffer, Surface::get or Surface::iter)",
+            input.clone(),
+            json!(hex(&want)),
+            json!(format!("{vh}x{vw} raw {} get {} iter {}", hex(&pixels_of(&img)), hex(&via_get), hex(&via_iter))),
+        );
+    }
     let js = guarded(|| serde_json::to_string(&img).map_err(|e| e.to_string()));
     let js = match js {
         Ok(Ok(js)) => js,
@@ -317,24 +398,22 @@ fn image_case(ctx: &mut Ctx, h: usize, w: usize, rgba: &[u8], chain: &[(SelW, Se
         (Some(sh), Some(sw), Some(4), Some(d)) => format!("ok {sh} {sw} {}", hex(d.as_bytes())),
         _ => format!("other {js}"),
     };
-    ctx.out.corr(&format!("c19 image ser {h} {w} {} {}", hex(rgba), chain_tok(chain)), &shown);
-    let back = guarded(|| serde_json::from_str::<Image>(&js).map_err(|e| e.to_string()));
-    let ok = matches!(&back, Ok(Ok(b)) if b.height() == vh && b.width() == vw && pixels_of(b) == want);
-    if !ok {
-        ctx.out.fail(
-            "Image does not survive serialisation followed by deserialisation pixel for pixel",
-            input.clone(),
-            json!(format!("{vh}x{vw} {}", hex(&want))),
-            json!(image_res_wire(&back)),
-        );
+    ctx.out.corr(&format!("c19 image ser {h} {w} {} {}", hex(rgba), steps_tok(steps)), &shown);
+    for (route, back) in serde_paths(&img) {
+        let ok = matches!(&back, Ok(b) if b.shape().height == vh && b.shape().width == vw && pixels_of(b) == want);
+        if !ok {
+            ctx.out.fail(
+                "Image does not survive serialisation followed by deserialisation pixel for pixel",
+                json!({"kind": "image", "h": h, "w": w, "rgba": hex(rgba), "chain": steps_tok(steps), "route": route}),
+                json!(format!("{vh}x{vw} {}", hex(&want))),
+                json!(image_res_wire(&Ok(back))),
+            );
+            break;
+        }
     }
-    let back2 = guarded(|| serde_json::to_value(&img).and_then(serde_json::from_value::<Image>).map_err(|e| e.to_string()));
-    let ok2 = matches!(&back2, Ok(Ok(b)) if b.height() == vh && b.width() == vw && pixels_of(b) == want);
-    if !ok2 {
-        ctx.out.fail("Image does not survive to_value/from_value pixel for pixel", input, json!(format!("{vh}x{vw} {}", hex(&want))), json!(image_res_wire(&back2)));
-    }
-    ctx.out.case(&format!("image {h} {w} {} {}", hex(rgba), chain_tok(chain)), vh * vw > 1);
-    ctx.out.hist(if chain.is_empty() { "image:whole" } else if vh * vw == 0 { "image:empty-crop" } else { "image:crop" });
+    ctx.out.case(&format!("image {h} {w} {} {}", hex(rgba), steps_tok(steps)), vh * vw > 1);
+    let transposed = steps.iter().any(|s| matches!(s, Step::T));
+    ctx.out.hist(if steps.is_empty() { "image:whole" } else if vh * vw == 0 { "image:empty-view" } else if transposed { "image:transposed/strided" } else { "image:crop" });
     ctx.out.hist(&format!("image:pixels<{}", if vh * vw == 0 { 1 } else { (vh * vw).next_power_of_two().max(2) }));
 }
 
